@@ -30,6 +30,7 @@ def main():
     first.update(load("RESULTS.round1.json"))
     first.update(load("RESULTS.round2.initial.json"))
     first.update(load("RESULTS.round3.initial.json"))
+    first.update(load("RESULTS.round4.initial.json"))
     rows = []
     for d in sorted(glob.glob(os.path.join(VERIF, "seeded", "*", "meta.json"))):
         seed = os.path.basename(os.path.dirname(d))
@@ -44,7 +45,7 @@ def main():
         if own:
             how = f"exit {own.get('exit')}, {own.get('violations')} VIOLATION lines, {own.get('with_reproduced_input')} with a replayed input"
         files = ",".join(os.path.basename(f) for f in meta.get("files", []))
-        if "-r2-" in seed or "-r3-" in seed:
+        if "-r2-" in seed or "-r3-" in seed or "-r4-" in seed:
             first_run = "caught" if (ini_own == 1 and seed not in ROUND2_FALSE_CATCH) else "missed at first"
         else:
             first_run = "missed at first" if seed in ROUND1_MISSED_AT_FIRST else "caught"
